@@ -31,7 +31,7 @@ def design_model(cfgname="BadsRun.cfg", spec="BadsRun", timeout=900):
     if os.path.exists(p):
         with open(p, "rb") as fh:
             return pickle.load(fh)
-    r = run_tlc(spec, cfg=cfgname, timeout=timeout, coverage=True)
+    r = run_tlc(spec, cfg=cfgname, timeout=timeout, coverage="big" not in cfgname, jvm_mem="12g" if "big" in cfgname else "4g")
     out = {"ok": r.ok, "states": r.states_generated, "distinct": r.distinct_states,
            "diameter": r.diameter, "violated": r.violated, "errors": r.errors[:5],
            "wall_s": round(r.wall_s, 1), "coverage": r.coverage, "cfg": cfgname,
@@ -63,8 +63,10 @@ def run_level_check(prop, tier, panel_names, level="model_checking", design_cfgs
     # ---- design model -----------------------------------------------------
     dstates = dtrans = 0
     dinfo = []
+    if tier == "thorough" and design_cfgs:
+        design_cfgs = tuple(design_cfgs) + ("BadsRun_big.cfg",)     # D=2, Budget=12, NTry=3: ~5 M states
     for cfg in design_cfgs:
-        dm = design_model(cfg)
+        dm = design_model(cfg, timeout=2400 if "big" in cfg else 900)
         dinfo.append({k: dm[k] for k in ("cfg", "ok", "states", "distinct", "diameter", "violated", "wall_s")})
         if not dm["ok"]:
             if dm["violated"]:
